@@ -26,6 +26,17 @@ from typing import Any
 from . import core
 
 PY = sys.executable
+RUN_TAG = "r%d" % os.getpid()  # scratch directories of this coordinator's workers carry this tag
+
+
+def cleanup_scratch() -> None:
+    """Remove scratch trees left behind by run children that were killed (wall timeout)."""
+    import glob
+    import shutil
+
+    for base in ("/dev/shm", tempfile.gettempdir()):
+        for d in glob.glob(os.path.join(base, f"dst-c1?-{RUN_TAG}-*")):
+            shutil.rmtree(d, ignore_errors=True)
 
 
 def child_env(hashseed: str = "0") -> dict[str, str]:
@@ -37,6 +48,7 @@ def child_env(hashseed: str = "0") -> dict[str, str]:
     e["PYTHONDONTWRITEBYTECODE"] = "1"
     e["PYTHONPATH"] = core.VERIF_DIR + os.pathsep + core.repo_src()
     e["VERIF_REPO_SRC"] = core.repo_src()
+    e["VERIF_RUN_TAG"] = RUN_TAG
     e.pop("PYTHONSTARTUP", None)
     return e
 
@@ -119,12 +131,15 @@ def main(argv: list[str] | None = None) -> int:
         return 2
     os.makedirs(core.EVIDENCE_DIR, exist_ok=True)
     os.makedirs(core.REPLAY_DIR, exist_ok=True)
-    if "--replay" in argv:
-        return replay(check, argv[argv.index("--replay") + 1])
-    tier = argv[1] if len(argv) > 1 else os.environ.get("VERIF_TIER", "quick")
-    if tier not in ("quick", "thorough"):
-        tier = "quick"
-    return batch(check, tier)
+    try:
+        if "--replay" in argv:
+            return replay(check, argv[argv.index("--replay") + 1])
+        tier = argv[1] if len(argv) > 1 else os.environ.get("VERIF_TIER", "quick")
+        if tier not in ("quick", "thorough"):
+            tier = "quick"
+        return batch(check, tier)
+    finally:
+        cleanup_scratch()
 
 
 def replay(check: str, path: str) -> int:
